@@ -43,6 +43,7 @@ MOUNTS = {
 MOUNTS_REPLAY_ONLY = {
     "io.rs": [("verif_io_state", "h_io_state.rs")],
     "v5/dispatcher.rs": [("verif_v5_pubgate", "h_v5_pubgate.rs")],
+    "v5/client/dispatcher.rs": [("verif_v5_client_pubgate", "h_v5_client_pubgate.rs")],
 }
 
 # connection-state slice: the std `VecDeque` import of these files is renamed and the fixed-capacity
@@ -87,7 +88,7 @@ SLICE_FILES = [
     "v5/codec/packet/pubacks.rs", "v5/codec/packet/publish.rs",
     "v5/codec/packet/subscribe.rs",
     "payload.rs", "v5/shared.rs", "v3/shared.rs", "io.rs", "v5/dispatcher.rs",
-    "v3/sink.rs", "v5/sink.rs", "v3/handshake.rs", "v5/handshake.rs",
+    "v3/sink.rs", "v5/sink.rs", "v3/handshake.rs", "v5/handshake.rs", "v5/client/dispatcher.rs",
 ]
 
 
@@ -313,6 +314,47 @@ PUBGATE_TAIL = """
 """
 
 
+PUBGATE_MID_CLIENT = """
+pub(crate) struct Inner {
+    sink: Rc<MqttShared>,
+    info: RefCell<PublishInfo>,
+}
+pub(crate) struct Dispatcher {
+    inner: Rc<Inner>,
+    max_receive: usize,
+    max_topic_alias: u16,
+}
+impl Dispatcher {
+    /// Ok(Some(..)) = the PUBLISH passed admission and goes to the publish handler
+    pub(crate) fn publish_gate<E>(
+        &self,
+        publish: &mut codec::Publish,
+        packet_id: Option<NonZeroU16>,
+    ) -> Result<Option<Encoded>, DispatcherError<E>> {
+        let info = self.inner.as_ref();
+"""
+
+
+def gen_v5_client_pubgate(stage):
+    with open(os.path.join(REPO, "src", "v5", "client", "dispatcher.rs")) as f:
+        txt = f.read()
+    info = extract_item(txt, r"^struct PublishInfo ", "struct PublishInfo (v5 client dispatcher)")
+    block = extract_item(txt, r"^                (?=\{\n                    let mut inner = info\.info\.borrow_mut\(\);)", "v5 client publish admission block")
+    sub = "std::collections::hash_map::Entry"
+    if block.count(sub) != 2:
+        raise SystemExit(f"weave: expected 2 occurrences of `{sub}` in the v5 client publish admission block, found {block.count(sub)}")
+    block2 = block.replace(sub, "ntex_util::hash_map::Entry")
+    head = PUBGATE_HEAD.replace("src/v5/dispatcher.rs", "src/v5/client/dispatcher.rs").replace(
+        "use std::{cell::RefCell, num, rc::Rc};", "use std::{cell::RefCell, num::NonZeroU16, rc::Rc};").replace(
+        "use super::codec::{self, DisconnectReasonCode, Encoded};", "use super::codec::{self, DisconnectReasonCode, Encoded, Packet};")
+    body = head + info + "\n" + PUBGATE_MID_CLIENT + "        " + block2.lstrip() + "\n" + PUBGATE_TAIL
+    body += '\n#[cfg(kani)]\n#[path = "' + os.path.join(HARN, "h_v5_client_pubgate.rs") + '"]\nmod verif_v5_client_pubgate;\n'
+    with open(os.path.join(stage, "gen_v5_client_pubgate.rs"), "w") as f:
+        f.write(body)
+    return {"struct PublishInfo": hashlib.sha256(info.encode()).hexdigest(),
+            "publish admission block": hashlib.sha256(block.encode()).hexdigest()}
+
+
 def gen_v5_pubgate(stage):
     with open(os.path.join(REPO, "src", "v5", "dispatcher.rs")) as f:
         txt = f.read()
@@ -379,6 +421,7 @@ def weave_kani():
         f.write(gen)
     extracted = gen_io_state(stage)
     extracted_gate = gen_v5_pubgate(stage)
+    extracted_cgate = gen_v5_client_pubgate(stage)
     # the real LocalWaker source (std-only file) from the registry version pinned by Cargo.lock
     ver = None
     with open(os.path.join(REPO, "Cargo.lock")) as f:
@@ -429,7 +472,7 @@ def weave_kani():
                            if os.path.exists(os.path.join(REPO, "src", rel))},
         "appended_lines": appended,
         "substitutions": substituted,
-        "extracted_items_sha256": {"io.rs": extracted, "v5/dispatcher.rs": extracted_gate},
+        "extracted_items_sha256": {"io.rs": extracted, "v5/dispatcher.rs": extracted_gate, "v5/client/dispatcher.rs": extracted_cgate},
     }
     return meta
 
